@@ -106,7 +106,7 @@ def run(ctx, lean, findings):
         if not ctx.escalate and ctx.elapsed() > (80 if ctx.tier == 'quick' else 780):
             break
     for f in findings:
-        if f.get('status') == 'open' and f.get('replay'):
+        if f.get('property') == PROP and f.get('status') == 'open' and f.get('replay'):
             if replay_input(ctx, f['replay'], os.path.join(ctx.tmp, 'kf_' + f['id'])):
                 ctx.known(f['id'], f['what'])
             else:
